@@ -15,6 +15,7 @@ import re
 import common
 import dfinv
 import vgen
+import unit_l2_msm
 from vgen import FnSpec, norm_ws, strip_attrs_and_docs
 from rsx import ToolLimit
 
@@ -186,6 +187,7 @@ def opaque_frag_stub(name, datatype_text, dec_extra_args=''):
             pub fn encode(asm: &mut Assembler, value: &DataType) -> (r: Result<(), RtcmError>)
                 requires old(asm).cap() <= 0x100_0000_0000,
                 ensures final(asm).cap() == old(asm).cap(), final(asm).poison(),
+                    final(asm).bits().len() >= old(asm).bits().len(), final(asm).bits().subrange(0, old(asm).bits().len() as int) == old(asm).bits(),   // L0: append-only
             { unimplemented!() }
             #[verifier::external_body]
             pub fn decode(par: &mut Parser%s) -> (r: Result<DataType, RtcmError>)
@@ -530,7 +532,23 @@ def emit_str(vf, exp, path, fr, ind):
     vgen.emit_fn(vf, exp, path + ['fn:decode'], sp, label='%s::decode' % '::'.join(path[1:]), indent=ind, keep_pub=True)
 
 
-def emit_module(vf, exp, path, mod, depth, stats, leafs):
+def find_sat_elem(exp, mod, fr):
+    """name of the satellite row struct: the data segment's satellite fragment is a shared module (msmNN_sat) imported by glob"""
+    st = exp.text[fr.struct.start:fr.struct.end]
+    m = re.search(r'satellite_data:\s*(\w+)::DataType', st)
+    satmod = m.group(1)
+    msg = exp.find(['msg'])
+    for top in msg.children:
+        if top.kind == 'mod' and top.name == satmod:
+            for c in top.children:
+                if c.kind == 'mod' and c.name == satmod:
+                    for d in c.children:
+                        if d.kind == 'struct':
+                            return '%s::%s' % (satmod, d.name)
+    raise ToolLimit('satellite fragment %s not found' % satmod)
+
+
+def emit_module(vf, exp, path, mod, depth, stats, leafs, parent_mod=None):
     """emit module `mod` (child of msg tree) recursively"""
     ind = '    ' * depth
     vf.emit(ind + 'pub mod %s {' % mod.name)
@@ -542,12 +560,12 @@ def emit_module(vf, exp, path, mod, depth, stats, leafs):
             if 'export_types' in t or 'serde' in t or 'Serialize' in t or 'source_repr' in t or 'val_gen' in t:
                 continue
             if 'cell_mask_id_vec' in t:
-                t = 'use crate::msg::{mask_len_u32, mask_len_u64};'  # cell_mask_id_vec is not (yet) in this unit
+                t = t.replace('cell_mask_id_vec,', '').replace('cell_mask_id_vec', '')  # cell_mask_id_vec is not (yet) in this unit
             vf.emit(ind + '    #[allow(unused_imports)] ' + t)
     fr = classify(exp, mod)
     subs = [c for c in mod.children if c.kind == 'mod' and c.name != 'export_types']
     for c in subs:
-        emit_module(vf, exp, path + [c.name], c, depth + 1, stats, leafs)
+        emit_module(vf, exp, path + [c.name], c, depth + 1, stats, leafs, parent_mod=mod)
     if fr is not None:
         i2 = ind + '    '
         if fr.struct is not None:
@@ -565,13 +583,35 @@ def emit_module(vf, exp, path, mod, depth, stats, leafs):
         elif fr.kind in ('vec', 'vec_len'):
             emit_vec(vf, exp, path, fr, i2, fr.kind == 'vec_len')
             stats['record'].append(('::'.join(path), True))
+        elif unit_l2_msm.is_msm_data(fr):
+            fr.parent = parent_mod
+            fr.sat_elem = find_sat_elem(exp, mod, fr)
+            unit_l2_msm.emit(vf, exp, path, fr, i2)
+            stats['record'].append(('::'.join(path), True))
         else:
-            stats['opaque'].append(('::'.join(path), fr.kind))
+            # Only fragments of a template this unit is known not to reach may be left external.  Anything else that
+            # does not match its template is a tool limit (exit 2), never a silent weakening.
+            why = getattr(fr, 'why', None)
+            body = fr.enc_body + ' ' + fr.dec_body
+            if fr.kind == 'grid':
+                why = 'frag_grid16p! (Grid16P::iter_mut element assignment is outside the rewrite list)'
+            elif why is None and re.search(r'\bsat_mask\b|sort_unstable_by|cell_mask_id_vec', body):
+                why = 'MSM template (msm_data_seg_frag!/msm_sat_frag!/msm_sig_frag!): masks and sorting are under contract in unit msm'
+            elif why is None and fr.name in ('df_msg1059_biases', 'df_msg1065_biases', 'df_msg1230_biases', 'df_msg1029_utf8_str'):
+                why = 'hand-written codec (bias lists / UTF-8 text): iterator adapters outside Verus'
+            if why is None:
+                raise ToolLimit('fragment %s does not match any template known to unit l2 (encode: %s)' % ('::'.join(path), fr.enc_body[:200]))
+            stats['opaque'].append(('::'.join(path), why))
+            msm_rows = why.startswith('MSM template') and not unit_l2_msm.is_msm_data(fr)
             extra = ''
             m = re.search(r'par: &mut Parser\s*,\s*(.+?)\)\s*->', fr.dec_sig)
             if m:
                 extra = ', ' + m.group(1)
-            vf.emit(opaque_frag_stub(fr.name, None, extra).replace('            ', i2))
+            stub = opaque_frag_stub(fr.name, None, extra)
+            if 'msm_rows' in dir() and msm_rows:
+                # row fragments only call data-field encoders: by inspection their only errors are the leaves' (assumed, listed)
+                stub = stub.replace('// L0: append-only', '// L0: append-only\n                    r is Err ==> (r->Err_0 is BufferOverflow || r->Err_0 is OutOfRange),')
+            vf.emit(stub.replace('            ', i2))
     vf.emit(ind + '}')
 
 
@@ -591,6 +631,7 @@ def emit_mappings(vf, exp):
             sp = FnSpec(); sp.ret = 'r'; sp.body_props = {'C10'}
             sp.ensures = [('l2.sig.%s.%s.twin' % (g.name, fn), {'C10'}, ens)]
             vgen.emit_fn(vf, exp, base + ['fn:' + fn], sp, label='msm_mappings::%s::%s' % (g.name, fn), indent='            ', keep_pub=True)
+        vf.emit('            pub proof fn lemma_id_range(s: SigId) ensures to_id_spec(s) is Some ==> 2 <= to_id_spec(s)->Some_0 <= 32 {}')
         vf.emit('        }')
     vf.emit('    }')
     for g in [c for c in mm.children if c.kind == 'mod']:
@@ -600,6 +641,7 @@ def emit_mappings(vf, exp):
 def build(vf, srcs):
     exp = srcs['exp']
     fields, others = dfinv.fields()
+    only = os.environ.get('RTCM_L2_ONLY')
     global FLOAT_LEAVES
     FLOAT_LEAVES = set(f.name for f in fields if f.datatype in ('f32', 'f64'))
     vgen.process_template(vf, os.path.join(common.VERIF, 'contracts', 'l2_prelude.vt'), srcs)
@@ -625,6 +667,8 @@ def build(vf, srcs):
     vgen.process_template(vf, os.path.join(common.VERIF, 'contracts', 'masks.vt'), srcs)
     for c in msg.children:
         if c.kind == 'mod' and c.name not in ('message', 'msm_mappings'):
+            if only and not (c.name in only.split(',') or c.name.startswith('msm')):
+                continue
             emit_module(vf, exp, ['msg', c.name], c, 1, stats, fields)
     vf.emit('}')
     vf.emit('} // verus!\nfn main() {}')
